@@ -1,8 +1,8 @@
-\* quick: 1 change per behaviour from 4 initial worlds, a fault on entry of any task (hooks included); conns/repository clauses strict, profile clause outside named deviation D1
+\* quick: 1 change per behaviour from 4 initial worlds, a fault on entry of any task (hooks and a later task of the change included); invariants outside the named deviations D1 (profiles) and D5 (forget of an inactive connection undone)
 SPECIFICATION Spec
 CONSTANTS
   MaxOps = 1
   SetupFaults = FALSE
   WorldNames = {"W0", "W1", "W2", "W3"}
-INVARIANTS TypeOK FailureRestores FailureProfiles ActiveMatch ReloadMatch ProfilesMatch RepoSane StrictFailureRestores StrictActiveMatch StrictReloadMatch
+INVARIANTS TypeOK FailureRestores FailureProfiles ActiveMatch ReloadMatch ProfilesMatch RepoSane
 CHECK_DEADLOCK FALSE
